@@ -6,7 +6,7 @@ use crate::json::J;
 use crate::props::workload::workload;
 use crate::rng::Rng;
 use chalk_integration::interner::ChalkIr;
-use chalk_ir::visit::{TypeVisitable, TypeVisitor};
+use chalk_ir::visit::{TypeSuperVisitable, TypeVisitable, TypeVisitor};
 use chalk_ir::*;
 use chalk_solve::infer::InferenceTable;
 use chalk_solve::{Guidance, Solution, SubstitutionResult};
@@ -24,11 +24,63 @@ struct Scan {
     nbinders: usize,
     max_universe: usize,
     err: Option<String>,
+    /// binders *inside* the value that are being traversed: (level, kinds they declare). Only fn-pointer binders are
+    /// tracked (they declare `num_binders` lifetimes); references into untracked binders are not judged.
+    levels: Vec<(u32, Vec<VariableKind<I>>)>,
+}
+impl Scan {
+    /// A variable bound by a binder inside the value: the binder must declare that index with that kind.
+    fn check_inner(&mut self, bv: BoundVar, outer: DebruijnIndex, want: &str) -> ControlFlow<()> {
+        let level = outer.depth() - 1 - bv.debruijn.depth();
+        if let Some((_, kinds)) = self.levels.iter().find(|(l, _)| *l == level) {
+            let ok = match kinds.get(bv.index) {
+                Some(VariableKind::Ty(_)) => want == "type",
+                Some(VariableKind::Lifetime) => want == "lifetime",
+                Some(VariableKind::Const(_)) => want == "const",
+                None => false,
+            };
+            if !ok {
+                self.err = Some(format!("{} variable {:?} refers to a binder inside the value that declares {} parameter(s) and no {} at that index", want, bv, kinds.len(), want));
+                return ControlFlow::Break(());
+            }
+        }
+        ControlFlow::Continue(())
+    }
 }
 impl TypeVisitor<I> for Scan {
     type BreakTy = ();
     fn as_dyn(&mut self) -> &mut dyn TypeVisitor<I, BreakTy = ()> {
         self
+    }
+    fn visit_ty(&mut self, ty: &Ty<I>, outer: DebruijnIndex) -> ControlFlow<()> {
+        match ty.kind(ChalkIr) {
+            TyKind::BoundVar(bv) if bv.debruijn < outer => self.check_inner(*bv, outer, "type"),
+            TyKind::Function(f) => {
+                self.levels.push((outer.depth(), vec![VariableKind::Lifetime; f.num_binders]));
+                let mut r = ControlFlow::Continue(());
+                for a in f.substitution.0.iter(ChalkIr) {
+                    r = a.visit_with(self.as_dyn(), outer.shifted_in());
+                    if r.is_break() {
+                        break;
+                    }
+                }
+                self.levels.pop();
+                r
+            }
+            _ => ty.super_visit_with(self.as_dyn(), outer),
+        }
+    }
+    fn visit_lifetime(&mut self, lt: &Lifetime<I>, outer: DebruijnIndex) -> ControlFlow<()> {
+        match lt.data(ChalkIr) {
+            LifetimeData::BoundVar(bv) if bv.debruijn < outer => self.check_inner(*bv, outer, "lifetime"),
+            _ => lt.super_visit_with(self.as_dyn(), outer),
+        }
+    }
+    fn visit_const(&mut self, c: &Const<I>, outer: DebruijnIndex) -> ControlFlow<()> {
+        match &c.data(ChalkIr).value {
+            ConstValue::BoundVar(bv) if bv.debruijn < outer => self.check_inner(*bv, outer, "const"),
+            _ => c.super_visit_with(self.as_dyn(), outer),
+        }
     }
     fn visit_free_var(&mut self, bv: BoundVar, outer: DebruijnIndex) -> ControlFlow<()> {
         match bv.shifted_out_to(outer) {
@@ -110,7 +162,7 @@ pub fn check_wf(goal: &UGoal, binders: &CanonicalVarKinds<I>, subst: &Substituti
             return Err(format!("solution binder {} lives in universe {} but the query only has {} universes", i, b.skip_kind().counter, goal.universes));
         }
     }
-    let mut scan = Scan { nbinders: nb, max_universe: goal.universes, err: None };
+    let mut scan = Scan { nbinders: nb, max_universe: goal.universes, err: None, levels: vec![] };
     let _ = subst.visit_with(&mut scan, DebruijnIndex::INNERMOST);
     if let Some(e) = scan.err {
         return Err(e);
@@ -178,11 +230,85 @@ fn special_goals(r: &mut Rng) -> (String, Vec<String>) {
     (prog.to_string(), gs)
 }
 
+/// Conjunctions of equalities between unknowns and terms with binders (nested fn pointers, `for<'a> fn(..)`), in a
+/// shuffled order, with `forall`s nested *inside* the conjunction (those are not peeled into the query) that introduce
+/// further existentials of inner universes.
+fn equality_goals(r: &mut Rng) -> (String, Vec<String>) {
+    let prog = "struct Vec<X> { } struct Pair<A, B> { } struct Ref<'a, X> { } struct Inv<'a> { } struct A { }\ntrait Tr { } impl Tr for u32 { } impl<X> Tr for Vec<X> where X: Tr { }\n";
+    fn term(r: &mut Rng, tys: &[String], lts: &[String], depth: usize) -> String {
+        let leaf = |r: &mut Rng| if !tys.is_empty() && r.chance(60) { r.pick(tys).clone() } else { r.pick(&["u32", "A", "bool"]).to_string() };
+        if depth == 0 {
+            return leaf(r);
+        }
+        let lt = |r: &mut Rng| if !lts.is_empty() && r.chance(70) { r.pick(lts).clone() } else { "'static".to_string() };
+        match r.below(9) {
+            0 => format!("Vec<{}>", term(r, tys, lts, depth - 1)),
+            1 => format!("Pair<{}, {}>", term(r, tys, lts, depth - 1), term(r, tys, lts, depth - 1)),
+            2 => format!("fn({})", term(r, tys, lts, depth - 1)),
+            3 => format!("fn(fn({}))", term(r, tys, lts, depth - 1)),
+            4 => format!("fn({}) -> {}", term(r, tys, lts, depth - 1), term(r, tys, lts, depth - 1)),
+            5 => format!("for<'x> fn(Ref<'x, {}>)", term(r, tys, lts, depth - 1)),
+            6 => format!("for<'x> fn(for<'y> fn(Ref<'x, Ref<'y, {}>>))", term(r, tys, lts, depth - 1)),
+            7 => format!("Ref<{}, {}>", lt(r), term(r, tys, lts, depth - 1)),
+            _ => format!("&{} {}", lt(r), term(r, tys, lts, depth - 1)),
+        }
+    }
+    let mut goals = vec![];
+    for _ in 0..10 {
+        let nt = 2 + r.below(3);
+        let nl = r.below(3);
+        let tys: Vec<String> = (0..nt).map(|i| format!("T{}", i)).collect();
+        let lts: Vec<String> = (0..nl).map(|i| format!("'l{}", i)).collect();
+        let mut atoms: Vec<String> = vec![];
+        // a chain: T_i = term over T_{i+1..}
+        for i in 0..nt - 1 {
+            if r.chance(80) {
+                let d = 1 + r.below(2);
+                atoms.push(format!("{} = {}", tys[i], term(r, &tys[i + 1..], &lts, d)));
+            }
+        }
+        match r.below(6) {
+            0 => atoms.push("u32: Tr".to_string()),
+            1 => atoms.push(format!("{}: Tr", r.pick(&tys))),
+            _ => {}
+        }
+        // a nested forall with inner existentials flowing into an outer unknown
+        if r.chance(45) {
+            let t = r.pick(&tys).clone();
+            atoms.push(match r.below(5) {
+                0 => format!("forall<'b> {{ exists<'a> {{ {} = Ref<'a, u32> }} }}", t),
+                1 => format!("forall<'b> {{ exists<'a> {{ {} = &'a u32 }} }}", t),
+                2 => format!("forall<X> {{ exists<Y> {{ {} = Vec<Y> }} }}", t),
+                3 => format!("forall<'b> {{ exists<'a, Y> {{ {} = Pair<Inv<'a>, Y> }} }}", t),
+                _ => format!("forall<'b> {{ {} = Inv<'b> }}", t),
+            });
+        }
+        if atoms.is_empty() {
+            atoms.push(format!("{} = u32", tys[0]));
+        }
+        r.shuffle(&mut atoms);
+        let mut binders = tys.clone();
+        binders.extend(lts.iter().cloned());
+        let body = atoms.join(", ");
+        goals.push(if r.chance(25) { format!("forall<P> {{ exists<{}> {{ {} }} }}", binders.join(", "), body.replace("bool", "P")) } else { format!("exists<{}> {{ {} }}", binders.join(", "), body) });
+    }
+    (prog.to_string(), goals)
+}
+
 pub fn run(ctx: &Ctx, out: &mut CaseOut) {
     let mut r = Rng::for_case(ctx.prop, ctx.seed, ctx.k);
     let (text, goals, fragment): (String, Vec<String>, &str) = if ctx.k % 5 == 0 {
         let (p, g) = special_goals(&mut r);
         (p, g, "lifetimes+consts+nested-forall")
+    } else if ctx.k % 11 == 9 || ctx.k % 11 == 4 {
+        let (p, g) = equality_goals(&mut r);
+        (p, g, "equalities-under-binders")
+    } else if ctx.k % 11 == 7 {
+        let w = crate::props::workload::lifetime_work(&mut r, 8);
+        (w.text.clone(), w.goals.iter().map(|g| g.0.clone()).collect(), w.fragment)
+    } else if ctx.k % 11 == 8 {
+        let z = crate::zoo::gen_zoo(&mut r);
+        (z.text.clone(), z.goals.iter().map(|g| g.0.clone()).collect(), "constructor-zoo")
     } else {
         let w = workload(&mut r, ctx.k / 5 * 4 + ctx.k % 5, 2, 8);
         (w.text.clone(), w.goals.iter().map(|g| g.0.clone()).collect(), w.fragment)
